@@ -634,7 +634,7 @@ def deep_machines(tier):
                  seeds=('warm', 'used'))
     pl = [('ops2', a, 3), ('ops3', b3, 4), ('big6', big6, 2),
           ('ops2-spare', spare, 4)] if tier == 'quick' else [
-        ('big6', big6, 3), ('ops2-spare', spare, 5),
+        ('big6', big6, 3), ('ops2-spare', dict(spare, seeds=('warm', 'used', 'swapped', 'fresh')), 4),
         ('ops2', a, 3), ('ops2-narrow', narrow, 6), ('ops3', b3, 5)]
     out = []
     for label, kw, depth in pl:
